@@ -551,7 +551,39 @@ pub fn gen_probe<P: Pad>(r: &mut RandomDir, w: &mut World<P>) {
 /// Structures that the uniform generator rarely builds: a garbage cycle whose member owns, through an
 /// untraced field, a uniquely owned helper that holds a Weak to a member of the cycle (its finalizer /
 /// destructor runs inside the destructor phase of the collection that reclaims the cycle).
+/// A cleaning action that is cleaned from inside a collection and releases the owner of its own Cleaner while another
+/// action is still registered there: the remaining action must have run when the drop of that Cleaner returns.
+#[cfg(feature = "clean")]
+pub fn gen_clean_scenario<P: Pad>(r: &mut RandomDir, w: &mut World<P>) {
+    if w.ns == 0 {
+        return;
+    }
+    let (x, g) = (w.next_id, w.next_id + 1);
+    let (ca, cb) = (w.next_action + 1, w.next_action + 2);
+    w.next_action += 2;
+    let first_b = r.rng.gen_bool(0.5);
+    let from_destructor = !cfg!(feature = "fin") || r.rng.gen_bool(0.3);
+    let q = &mut r.queue;
+    q.push_back(json!({"e": "call", "op": "new", "o": x}));
+    q.push_back(json!({"e": "call", "op": "new", "o": g}));
+    for c in if first_b { [cb, ca] } else { [ca, cb] } {
+        q.push_back(json!({"e": "call", "op": "register", "a": x, "c": c, "t": 0}));
+    }
+    q.push_back(json!({"e": "call", "op": "set", "a": g, "k": "s", "i": 1, "b": g}));
+    q.push_back(json!({"e": "call", "op": "drop", "o": g}));
+    q.push_back(json!({"e": "call", "op": "collect"}));
+    // the collector's finalizer (or destructor) of g cleans action A, which releases the program's only handle to x
+    let kind = if from_destructor { "drop" } else { "finalize" };
+    r.cb_plan.entry(format!("{}:{}", kind, g)).or_default().push_back(json!({"e": "call", "op": "clean", "c": ca}));
+    r.cb_plan.entry(format!("action:{}", ca)).or_default().push_back(json!({"e": "call", "op": "drop", "o": x}));
+}
+
 pub fn gen_scenario<P: Pad>(r: &mut RandomDir, w: &mut World<P>) {
+    #[cfg(feature = "clean")]
+    if r.cfg.clean && r.rng.gen_bool(0.4) {
+        gen_clean_scenario(r, w);
+        return;
+    }
     if !(r.cfg.weak && w.np >= 1 && w.nw >= 1 && w.ns >= 1) || r.rng.gen_bool(0.5) {
         gen_dense_garbage(r, w);
         return;
